@@ -5,6 +5,7 @@ import re
 
 import vlib
 import core_gen
+import runner
 from framework import LineCheck
 
 CORE_VO = ["theories/Core/Kernel.vo", "theories/Core/CoreTypes.vo", "theories/Core/CoreFd.vo",
@@ -384,10 +385,99 @@ class C18(CoreCheck):
     profiles = ["mixed", "fd", "event", "quit"]
     rule = ("all scenario families on all four poll methods, every object individually allocated, poisoned and freed at the earliest "
             "allowed moment under ASan/UBSan/LSan; end-of-run accounting (numobjs after tear-down, open library descriptors after "
-            "iv_deinit); non-trivial = the run reached tear-down (D event); distinct = distinct scenario text")
+            "iv_deinit); non-trivial = the run reached tear-down (D event); distinct = distinct scenario text.  Plus thread churn on the real "
+            "kernel (harness/churn.c, ASan/LSan): three batches of short-lived threads per poll method, each initialising a loop, using one "
+            "object of every kind (+ work pool with workers / iv_thread child), ending by iv_deinit, by plain return (TLS destructor) or "
+            "by pthread_exit; open descriptors must equal the baseline after every batch and live heap bytes must not grow from batch 2 to 3")
 
     def nontrivial(self, case, mo):
-        return " | D open=" in (mo or "")
+        return case.startswith("CHURN ") or " | D open=" in (mo or "")
+
+    # ---- thread churn on the real kernel (harness/churn.c): the clause "or a thread that used the library exits ...
+    # repeated init/use/deinit cycles and thread churn do not grow the process" cannot be exercised by the sequential
+    # scenario interpreter; it is observed on real threads under ASan/LSan
+    CHURN_METHODS = ["", "epoll-timerfd", "epoll-timerfd epoll", "epoll-timerfd epoll ppoll"]
+
+    def build(self, ctx):
+        ok, out = CoreCheck.build(self, ctx)
+        if not ok:
+            return ok, out
+        ok, out2 = vlib.cc_build(self.d, "churn", ["churn.c"], vlib.LIB_SRCS)
+        return ok, out + out2
+
+    def run_churn(self, case):
+        """case = 'CHURN <method index> <seed> <threads per batch>'; returns None or the reason it fails"""
+        import subprocess
+        _, mi, seed, n = case.split()
+        env = dict(os.environ, IV_EXCLUDE_POLL_METHOD=self.CHURN_METHODS[int(mi)])
+        env.update(runner.ASAN_ENV)
+        try:
+            p = subprocess.run([os.path.join(self.d, "churn"), seed, n], stdout=subprocess.PIPE, stderr=subprocess.PIPE, text=True,
+                               errors="replace", timeout=300, env=env)
+        except subprocess.TimeoutExpired:
+            return "thread churn program did not finish (hang)"
+        m = re.search(r"CHURN method (\S+) fds (\d+) (\d+) (\d+) (\d+) heap (\d+) (\d+) (\d+) threads (\d+)", p.stdout)
+        if p.returncode != 0 or not m:
+            return "thread churn program failed (rc=%d): %s %s" % (p.returncode, p.stdout[-300:], p.stderr[-2500:])
+        f0, f1, f2, f3, h1, h2, h3 = [int(x) for x in m.groups()[1:8]]
+        self.churn_methods.add(m.group(1))
+        if not (f0 == f1 == f2 == f3):
+            return ("descriptors leak over init/use/deinit cycles and thread exits (%s): open descriptors %d at start, %d %d %d after "
+                    "three batches of %s threads" % (m.group(1), f0, f1, f2, f3, n))
+        if h3 > h2:
+            return ("live heap grows with thread churn (%s): %d bytes after batch 2, %d after batch 3 (%s threads per batch; batch 1 "
+                    "warms up process-wide state)" % (m.group(1), h2, h3, n))
+        return None
+
+    def cases(self, ctx):
+        cases = CoreCheck.cases(self, ctx)
+        reps = 2 if ctx.tier == "quick" else 12
+        self.n_churn = 0
+        for mi in range(len(self.CHURN_METHODS)):
+            for r in range(reps):
+                cases.append("CHURN %d %d %d" % (mi, ctx.seed * 100 + r, 24 if ctx.tier == "quick" else 60))
+                self.n_churn += 1
+        return cases
+
+    def correspond(self, ctx, cases):
+        from concurrent.futures import ThreadPoolExecutor
+        scen = [c for c in cases if not c.startswith("CHURN ")]
+        churn = [c for c in cases if c.startswith("CHURN ")]
+        st = CoreCheck.correspond(self, ctx, scen)
+        if scen and churn and cases[:len(scen)] != scen:
+            raise RuntimeError("churn cases must come last")
+        self.churn_methods = getattr(self, "churn_methods", set())
+        with ThreadPoolExecutor(max_workers=4) as ex:
+            res = list(ex.map(self.run_churn, churn))
+        for k, why in enumerate(res):
+            idx = len(scen) + k
+            st["mres"].append(("", None))
+            st["ires"].append(("", None))
+            if st["mon"] is not None:
+                st["mon"].append("OK")
+            if why:
+                st["crashes"].append((idx, why))
+            else:
+                st["nontrivial"] += 1
+        st["n"] += len(churn)
+        return st
+
+    def shrink(self, ctx, case):
+        return case if case.startswith("CHURN ") else CoreCheck.shrink(self, ctx, case)
+
+    def describe(self, case):
+        if case.startswith("CHURN "):
+            return {"thread_churn": case, "excluded_poll_methods": self.CHURN_METHODS[int(case.split()[1])]}
+        return CoreCheck.describe(self, case)
+
+    def signature(self, case, why):
+        return "churn" if case.startswith("CHURN ") else CoreCheck.signature(self, case, why)
+
+    def distribution(self, cases):
+        d = CoreCheck.distribution(self, [c for c in cases if not c.startswith("CHURN ")])
+        d["thread_churn_runs"] = sum(1 for c in cases if c.startswith("CHURN "))
+        d["thread_churn_methods"] = sorted(getattr(self, "churn_methods", []))
+        return d
 
 
 class C15(CoreCheck):
